@@ -168,7 +168,7 @@ def build():
     # ---- C08 / C09 sequential half (single thread, one context)
     NS = {'exclude_calls': [['nsync_note_notified_deadline_', 'notify']], 'max_rec': 3}
     for fn in ['h_expiry', 'h_notify_child', 'h_notify_root', 'h_new_under_notified', 'h_free_adopt']:
-        add('ns_' + fn, 'note_seq.c', [fn], 1, CV_UNITS, optional=(fn in ('h_notify_root', 'h_free_adopt')), pools={'note': {'type': 'struct.nsync_note_s_', 'count': 4}}, extra=NS,
+        add('ns_' + fn, 'note_seq.c', [fn], 1, CV_UNITS, optional=(fn in ('h_notify_root',)), pools={'note': {'type': 'struct.nsync_note_s_', 'count': 4}}, extra=NS,
             excl=CTR_FN + CVW_FN + ['nsync_mu_lock_slow_', 'nsync_mu_unlock_slow_', 'nsync_sem_wait_with_cancel_', 'mu_try_acquire_after_timeout_or_cancel'],
             unroll={'*': 2, 'note_notify_child#0': 1, 'note_notify_child#1': 3, 'nsync_note_free#0': 2}, defines=['VF_FROZEN_CLOCK'], timeout=3000)
     # ---- E2: thread-modular step checks (one thread + environment), see harness/e3/e2_word.c
